@@ -120,7 +120,7 @@ def build_vh(tmp, race=False):
 def stage_spec(dst):
     """Copy every TLA+ module and cfg (flat) into dst."""
     os.makedirs(dst, exist_ok=True)
-    for sub in ("fn", "prop", "impl", "trace", "mc"):
+    for sub in ("fn", "prop", "impl", "trace", "mc", "proof"):
         for p in glob.glob(os.path.join(SPEC, sub, "*")):
             if p.endswith((".tla", ".cfg")):
                 shutil.copy(p, dst)
@@ -268,6 +268,22 @@ def oracle_pass(ctx, obs_path, module, cfg=None, nchunks=12, timeout=1500, env_e
     rejs = [r for rs, _ in results for r in rs]
     states = sum(s for _, s in results)
     return dict(lines=n, accepted=n - len(rejs), rejections=rejs, states=states, transitions=max(states - len(chunks), 0))
+
+
+def run_tlapm(workdir, module, timeout=900):
+    """Check a TLAPS proof module. Returns dict(ok, obligations, proved, out)."""
+    try:
+        p = subprocess.run(["tlapm", "--threads", "8", "--cleanfp", module + ".tla"], cwd=workdir, capture_output=True, text=True, timeout=timeout)
+    except subprocess.TimeoutExpired:
+        raise Inconclusive("tlapm timeout (%ss) on %s" % (timeout, module))
+    out = (p.stdout or "") + (p.stderr or "")
+    m = re.search(r"All (\d+) obligations? proved", out)
+    if m:
+        return dict(ok=True, obligations=int(m.group(1)), proved=int(m.group(1)), out=out)
+    m = re.search(r"(\d+)/(\d+) obligations failed", out)
+    if m:
+        return dict(ok=False, obligations=int(m.group(2)), proved=int(m.group(2)) - int(m.group(1)), out=out)
+    raise Inconclusive("tlapm gave no verdict on %s:\n%s" % (module, out[-1500:]))
 
 
 # ---------------------------------------------------------------- known findings
